@@ -159,6 +159,12 @@ def gen_case(rng, size=None, steps=6):
             if prev and i < len(prev) and rng.random() < .25:
                 arr.append(prev[i])
                 continue
+            if prev and i < len(prev) and rng.random() < .12:
+                from .c02 import shifted
+                sh = shifted(rng, prev[i])        # same text, same formats, a run boundary moved
+                if sh is not None:
+                    arr.append(sh)
+                    continue
             L = max(0, rng.choice([0, 1, cols - 1, cols, rng.randint(0, cols)]))
             if L == 0:
                 arr.append("")
